@@ -173,13 +173,15 @@ def skeletons(length, exch, max_orders=3, with_ua=True):
     return out
 
 
-def h_session(ctx, n=3, kind='T1', side='long', exch='futures', sym=None):
+def h_session(ctx, n=3, kind='T1', side='long', exch='futures', sym=None, mode='cross'):
     """lifecycle invariants on every order produced by a backtest run (shares C02's session harness)"""
     from . import c02
     rows = S.sparse_rows(ctx, n, list(sym)) if sym is not None else S.minute_rows(ctx, n, sym_from=1)
     T = c02._template(ctx, kind, side, exch)
-    cfg = S.config_dict(exchange_type=exch, leverage=2, fee=0.001, balance=10000.0)
+    cfg = S.config_dict(exchange_type=exch, leverage=2, mode=mode, fee=0.001, balance=10000.0)
     rec = S.run_session(S.make_candles(rows), T, cfg)
+    if any(pre['post']['total_liq'] != pre['total_liq'] for pre in rec.liq):
+        ctx.event('session-with-liquidation')  # the simulator's own forced-close order goes through the same lifecycle
     session_lifecycle(ctx, rec)
 
 
@@ -234,9 +236,11 @@ def _jobs(tier):
                 if not any(op[0] != 'S' for op in s):
                     continue
                 jobs.append(Job('%s_%s' % (exch[0], _name(s)), h_history, {'skeleton': s, 'exch': exch}))
-    for kw in ([dict(n=3, kind='T1', side='long', exch='futures'), dict(n=3, kind='T3m', side='long', exch='futures', sym=[1])] if tier == 'quick' else
+    for kw in ([dict(n=3, kind='T1', side='long', exch='futures'), dict(n=3, kind='T3m', side='long', exch='futures', sym=[1]),
+                dict(n=3, kind='T1m', side='long', exch='futures', sym=[1, 2], mode='isolated')] if tier == 'quick' else
                [dict(n=3, kind=k, side=sd, exch='futures') for k in ('T1', 'T8') for sd in ('long', 'short')] +
-               [dict(n=3, kind='T1', side='long', exch='spot'), dict(n=3, kind='T3m', side='long', exch='futures', sym=[1]), dict(n=3, kind='T3m', side='short', exch='futures', sym=[1]), dict(n=4, kind='T3m', side='long', exch='futures', sym=[1, 2])]):
+               [dict(n=3, kind='T1', side='long', exch='spot'), dict(n=3, kind='T3m', side='long', exch='futures', sym=[1]), dict(n=3, kind='T3m', side='short', exch='futures', sym=[1]), dict(n=4, kind='T3m', side='long', exch='futures', sym=[1, 2]),
+                dict(n=3, kind='T1m', side='long', exch='futures', sym=[1, 2], mode='isolated'), dict(n=3, kind='T1m', side='short', exch='futures', sym=[1, 2], mode='isolated')]):
         jobs.append(Job('sess_' + '_'.join(str(v) for v in kw.values()), h_session, kw))
     return jobs
 
@@ -260,7 +264,7 @@ def setup(tier, seed):
         'stubs': list(jstubs.INSTALLED),
         'assumptions': ['floats as reals'],
         'must_reach': ['C05:repeated-call-has-no-effect', 'C05:final-order-never-changes', 'C05:executed-order-in-exactly-one-trade',
-                       'repeated-call-on-final-order', 'cancel-all', 'pending-market-flush', 'session-order-checked', 'session-step-checked',
+                       'repeated-call-on-final-order', 'cancel-all', 'pending-market-flush', 'session-order-checked', 'session-step-checked', 'session-with-liquidation',
                        'C05:active-registry-is-submitted-not-final'],
     }
 
